@@ -421,4 +421,48 @@ def r7_range_expressions(ctx):
     ctx.check(ok, ro.qual + "#times", "readout times = eval_range(times) as floats" if ok else "readout times are not evaluated through eval_range", where=ro, node=ro.node)
 
 
-RULES = [r7_range_expressions, r6_settings_survive_derived_copies, r1_exactly_one, r2_ctor_setter_parity, r3_documented_ranges, r5_builders_not_crosswired]
+def _as_written(e: ast.expr, p: str) -> bool:
+    """``e`` is the constructor argument ``p`` itself, up to value-preserving packaging."""
+    if dotted(e) == p:
+        return True
+    if isinstance(e, ast.Constant) and e.value is None:
+        return True
+    if isinstance(e, ast.Call) and call_name(e) in ("float", "int", "tuple", "list", "np.asarray", "np.array", "np.float64", "str", "bool") and len(e.args) == 1 and not e.keywords:
+        return _as_written(e.args[0], p)
+    if isinstance(e, (ast.Tuple, ast.List)):
+        return all(isinstance(x, ast.Subscript) and dotted(x.value) == p and isinstance(x.slice, ast.Constant) and x.slice.value == i for i, x in enumerate(e.elts)) and bool(e.elts)
+    if isinstance(e, ast.IfExp):
+        return _as_written(e.body, p) and _as_written(e.orelse, p)
+    return False
+
+
+def r8_stored_as_written(ctx):
+    """"Every setting equals the value written in the file": in the constructors of the setting classes a parameter `p` that is stored into `self._p` is stored as given on every path (itself, float(p), its components in order) - never sorted, clipped, rounded, swapped or replaced by a default."""
+    from sa.paths import enumerate_paths
+
+    n = 0
+    for cq in CLASSES:
+        ci = ctx.cls(cq)
+        init = ci.methods.get("__init__")
+        if init is None:
+            continue
+        params = set(init.params[1:])
+        for q in enumerate_paths(init.node.body, max_paths=4096):
+            if q.exit == "raise":
+                continue
+            for e in q.effects:
+                if e.kind != "store" or not e.target.startswith("self._"):
+                    continue
+                p = e.target[len("self._"):]
+                if p not in params or e.value is None:
+                    continue
+                used = names_in(e.value) & params
+                if (used and used != {p}) or (not used and not isinstance(e.value, ast.Constant)):
+                    continue  # a derived quantity (e.g. the APD gain / bias / voltage triple): not a plain setting
+                n += 1
+                ok = _as_written(e.value, p)
+                ctx.check(ok, f"{cq}.{p}#as-written", f"self._{p} = {p} as given" if ok else f"the constructor stores self._{p} = {norm(e.value)[:70]}: not the value written in the configuration", where=init, node=e.node)
+    ctx.floor(n, 15)
+
+
+RULES = [r8_stored_as_written, r7_range_expressions, r6_settings_survive_derived_copies, r1_exactly_one, r2_ctor_setter_parity, r3_documented_ranges, r5_builders_not_crosswired]
